@@ -3,7 +3,9 @@
 R19.1 PartialEq::eq of PrefixMap and PrefixSet is a function of *both complete entry sequences* compared with the
       items' own equality: on every path the result is the outcome of std's Iterator::eq (or eq_by) applied to the
       whole-collection walkers of self and other — or the conjunction of an entry-count comparison with an
-      element-wise comparison of the two zipped walkers by the items' own `==`.  A bare zip().all() (stops at the
+      element-wise comparison of the two zipped walkers by the items' own `==`, or a hand-written lock-step loop that
+      advances both whole walkers together (interpreted over abstract sequences: decided at the first round that is not
+      "both yield and the items are equal", true iff both sequences end in that round).  A bare zip().all() (stops at the
       shorter sequence) or a lookup-based comparison (goes through the masked key, not the stored representation)
       is reported;
 R19.2 Clone of PrefixMap / PrefixSet is derived (all fields), and Table::clone builds its arena by Vec::clone of the
